@@ -245,7 +245,7 @@ pub fn run_c08c(ctx: &mut Ctx) {
         let mut actuals: Vec<String> = vec!["m".into(), "0".into(), "1".into(), (declared / 2).to_string(), (declared - 1).to_string(), declared.to_string(), (declared + 3).to_string()];
         actuals.dedup();
         for a in actuals {
-            for code in [200u32, 404, 503] {
+            for code in [200u32, 404, 503, 103] {
                 for tail in ["wr:500:n;rr", "rr;wr:500:n", "wr:500:e;wr:200:n"] {
                     idx += 1;
                     if ctx.mine(idx) {
